@@ -262,6 +262,9 @@ func (ci *cacheSeqInst) Apply(ev int, check bool) (string, string) {
 		pe, has := phys[k]
 		if has {
 			nphys++
+			if pe.E < 0 {
+				pe.E = 0 // an instant that overflowed int64 is stored as a non-positive number: "never"
+			}
 		}
 		me := ci.m.Ent[k]
 		switch {
